@@ -24,12 +24,13 @@ theorem evictPrefix_spec (db : DbL) (l : List JournalL) :
 /-- **Oldest first, and only journals whose every watermark is flushed.**  `maintenance` removes a
     prefix of the sealed journals (never a newer one before an older one), touches nothing else, and
     every removed journal passed the eviction test: for each of its watermarks `(ks, lsn)`, the
-    keyspace is deleted or its tables hold a seqno `≥ lsn`. -/
+    keyspace is deleted, or its tables hold a seqno `≥ lsn`, or it holds nothing in memory. -/
 theorem c10_evicts_oldest_flushed_only (db : DbL) :
     ∃ n, db.maintenance.sealed = db.sealed.drop n ∧ db.maintenance.kss = db.kss ∧
       db.maintenance.active = db.active ∧
       ∀ j ∈ db.sealed.take n, ∀ wm ∈ j.watermarks,
-        (db.find wm.1 = none) ∨ (∃ k p, db.find wm.1 = some k ∧ k.persisted = some p ∧ wm.2 ≤ p) := by
+        (db.find wm.1 = none) ∨ (∃ k p, db.find wm.1 = some k ∧ k.persisted = some p ∧ wm.2 ≤ p) ∨
+        (∃ k, db.find wm.1 = some k ∧ k.sealedMem = [] ∧ k.mem = []) := by
   obtain ⟨n, h1, h4⟩ := evictPrefix_spec db db.sealed
   refine ⟨n, h1, rfl, rfl, ?_⟩
   intro j hj wm hwm
@@ -43,10 +44,38 @@ theorem c10_evicts_oldest_flushed_only (db : DbL) :
   | some k =>
     right
     rw [hf] at this
-    simp only at this
-    cases hp : k.persisted with
-    | none => rw [hp] at this; simp at this
-    | some p => rw [hp] at this; exact ⟨k, p, rfl, hp, by simpa using this⟩
+    simp only [KsL.flushedUpTo, Bool.or_eq_true, Bool.and_eq_true, List.isEmpty_iff] at this
+    rcases this with h1 | ⟨h1, h2⟩
+    · left
+      cases hp : k.persisted with
+      | none => rw [hp] at h1; simp at h1
+      | some p => rw [hp] at h1; exact ⟨k, p, rfl, hp, by simpa using h1⟩
+    · right; exact ⟨k, rfl, h1, h2⟩
+
+/-- **The number of journal files returns to one** (repaired, finding F10): once every live
+    keyspace has flushed everything it holds in memory, `maintenance` removes every sealed
+    journal — whatever the tables' highest seqnos say (cleared keyspaces, evicted tombstones). -/
+theorem c10_returns_to_one (db : DbL) (h : ∀ k ∈ db.kss, k.sealedMem = [] ∧ k.mem = []) :
+    db.maintenance.sealed = [] := by
+  have hall : ∀ l : List JournalL, evictPrefix db l = [] := by
+    intro l
+    induction l with
+    | nil => rfl
+    | cons j rest ih =>
+      have he : db.evictable j = true := by
+        simp only [DbL.evictable, List.all_eq_true]
+        intro wm _
+        obtain ⟨id, lsn⟩ := wm
+        simp only
+        cases hf : db.find id with
+        | none => rfl
+        | some k =>
+          have hk := List.mem_of_find?_eq_some hf
+          obtain ⟨h1, h2⟩ := h k hk
+          simp [KsL.flushedUpTo, h1, h2]
+      simp [evictPrefix, he, ih]
+  simp only [DbL.maintenance]
+  exact hall _
 
 theorem maxSeqno_ge (rs : List Rec) (acc : Option Nat) :
     ∀ r ∈ rs, ∃ m, rs.foldl (fun acc r => some (match acc with | none => r.seqno | some a => max a r.seqno)) acc = some m ∧ r.seqno ≤ m := by
@@ -89,5 +118,8 @@ theorem c10_watermark_covers_memory (db : DbL) (k : KsL) (hk : k ∈ db.kss) (r 
 def exDb : DbL :=
   (((((({} : DbL).createKs "a").1.createKs "b").1.write [(1, .put [1] [1]), (2, .put [2] [2])]).rotateJournal).flush 1)
 example : exDb.maintenance.sealed.length = 1 ∧ (exDb.flush 2).maintenance.sealed.length = 0 := by decide
+
+/-! Regression for F10: keyspace 1 is cleared after the rotation; flushing everything empties the list. -/
+example : (((exDb.write [(1, .clear)]).flush 1).flush 2).maintenance.sealed.length = 0 := by decide
 
 end Fjall.Db
